@@ -121,3 +121,13 @@ func VerifC08SmfMeta() {
 	zz.Assert(m.IsMeta(), "constructed-is-meta")
 	zz.Reach("end")
 }
+
+// VerifC08SmfLongMeta: FF typ followed by n-2 arbitrary bytes (length fields of any number of bytes, also
+// overlong ones that no writer emits), n beyond the fully symbolic lengths of VerifC08Smf.
+func VerifC08SmfLongMeta() {
+	n := zz.Param("n")
+	raw := zz.Bytes("m", n)
+	raw[0] = 0xFF
+	c08check(Message(raw))
+	zz.Reach("end")
+}
